@@ -638,6 +638,9 @@ func (fr *Frame) pureArgLeavesD(a *SVal, top bool) [][2]string {
 	var out [][2]string
 	switch kindOf(a.T) {
 	case KSlice:
+		if a.Row != "" {
+			return [][2]string{{"(Array Int Int)", a.Row}, {"Int", a.F[1].Term}, {"Int", a.F[2].Term}}
+		}
 		et := elemType(a.T)
 		for _, lf := range leavesOf(et) {
 			name := "HA:" + typeKey(et)
